@@ -283,6 +283,12 @@ func uniqueStoreTo(al *ssa.Alloc) ssa.Value {
 		case *ssa.UnOp:
 			// load
 		case *ssa.DebugRef:
+		case *ssa.MakeClosure:
+			// captured by a closure: fine as long as the closures never store to it
+			vals, ok := storesToCell(al)
+			if !ok || len(vals) != 1 {
+				return nil
+			}
 		default:
 			return nil
 		}
